@@ -4,13 +4,21 @@ import "os"
 
 func init() { streams["astfacts"] = streamAstFacts }
 
-// streamAstFacts regenerates lean/Generated/LockFacts.lean from /repo's sources (C10).
+// streamAstFacts regenerates lean/Generated/LockFacts.lean (C10) and, at <out>.flow, the text of
+// lean/Generated/FlowFacts.lean (data-flow skeleton of the layer methods) from /repo's sources.
 func streamAstFacts(cfg *Config, res *Result) error {
 	src, err := genLockFacts(cfg.Repo)
 	if err != nil {
 		return err
 	}
+	flow, err := genFlowFacts(cfg.Repo)
+	if err != nil {
+		return err
+	}
 	out := cfg.Out
 	cfg.Out = "" // the output is the Lean file, not a result json
+	if err := os.WriteFile(out+".flow", []byte(flow), 0o644); err != nil {
+		return err
+	}
 	return os.WriteFile(out, []byte(src), 0o644)
 }
